@@ -13,7 +13,7 @@ json.dump(small, open(dst, "w"), indent=1)
 print(fl["oracle"], fl.get("step"), fl["detail"][:600])
 for i, op in enumerate(small["ops"]):
     if op[0] in ("new_cells",):
-        print(i, op[0], op[1], repr(cells_source(op[2])))
+        print(i, op[0], op[1], op[2]["name"], "cached" if op[2].get("cached", True) else "UNCACHED", repr(cells_source(op[2])))
     elif op[0] == "set_cells_formula":
         print(i, op[0], op[1], op[2], repr(cells_source(dict(op[3], name=op[2]))))
     else:
